@@ -757,6 +757,22 @@ example :
 (definitions: `Model/PyReflect.lean`, namespace `NunavutVerif.PyReflect`; the theorems stay in this file's namespace) -/
 open NunavutVerif.PyReflect
 
+/-- `filter_pickle` / `_restore_constant_` (`lang/py/__init__.py`, `base.j2`): whatever the three library stages are
+(`pickle`, `gzip`, `base85` — abstract bijections), cutting the text into 100-character string literals and letting
+Python concatenate the adjacent literals loses nothing: `_restore_constant_(filter_pickle(m)) = m`; every emitted
+literal is non-empty and at most 100 characters long.  (`pipelineCodec` packages this as the `Codec` of the
+theorems below.) -/
+theorem C18_restore_constant_inverts_filter_pickle {M Y : Type} (pk : Stage M Y) (gz : Stage Y Y)
+    (b85 : Stage Y (List Char)) (m : M) :
+    restoreConstant pk gz b85 (filterPickle pk gz b85 m) = some m
+    ∧ ∀ seg ∈ filterPickle pk gz b85 m, seg ≠ [] ∧ seg.length ≤ 100 :=
+  ⟨restoreConstant_filterPickle pk gz b85 m, fun seg h => segmentsAux_bound 100 (by decide) _ _ seg h⟩
+
+/-- Non-vacuity (segment length 3 instead of 100): eight characters give literals of 3, 3 and 2 characters. -/
+example : segments 3 ['a', 'b', 'c', 'd', 'e', 'f', 'g', 'h'] = [['a', 'b', 'c'], ['d', 'e', 'f'], ['g', 'h']]
+    ∧ segments 100 [] = [] ∧ segments 2 ['a', 'b', 'c', 'd'] = [['a', 'b'], ['c', 'd']] := by
+  refine ⟨?_, ?_, ?_⟩ <;> decide
+
 /-- With overwriting allowed (the default) a generation run never fails on what the directory already holds. -/
 theorem C18_regeneration_never_blocked {M B : Type} (c : Codec M B) (fs : FS B) (defs : List (Def M)) :
     ∃ fs', generateAll c true fs defs = .ok fs' :=
